@@ -159,6 +159,18 @@ var c08Corpus = []string{
 	`select ?s, ?o, ?t from ?g where { /u<a> "p"@[] ?x . optional { ?s ?p ?o at ?t } } ;`,
 	`select ?sid, ?pid from ?g where { ?s id ?sid ?p id ?pid ?o } ;`,
 	`select ?st from ?g where { ?s type ?st "p"@[] ?o } ;`,
+	// a binding used where the value it holds does not fit: a node or a literal as anchor, as predicate, a literal as subject
+	`select ?s, ?x from ?g where { ?t "p"@[] ?o . ?s "q"@[?t] ?x } ;`,
+	`select ?s, ?x from ?g where { ?s "p"@[] ?t . ?s "q"@[?t] ?x } ;`,
+	`select ?s, ?x from ?g where { ?s "p"@[] ?t . ?s "q"@[?t,?t] ?x } ;`,
+	`select ?s, ?x from ?g where { ?s "p"@[] ?o . ?o "p"@[] ?x } ;`,
+	`select ?s, ?x from ?g where { ?s "p"@[] ?o . ?s ?o ?x } ;`,
+	`select ?s, ?x from ?g where { ?s "q"@[] ?o . ?x "p"@[] ?o } ;`,
+	// CONSTRUCT / DECONSTRUCT over an empty result, over one row, into the graph they read
+	`construct { ?s "r"@[] ?o } into ?g from ?g where { ?s "zz"@[] ?o } ;`,
+	`deconstruct { ?s "p"@[] ?o } in ?g from ?g where { ?s "zz"@[] ?o } ;`,
+	`construct { ?s "r"@[] ?o ; "r2"@[] ?o } into ?g from ?g where { ?s "p"@[] ?o } ;`,
+	`deconstruct { ?s "p"@[] ?o } in ?g from ?g where { ?s "p"@[] ?o } ;`,
 }
 
 // C08 (corpus): awkward but well-formed statements (aggregates over empty
